@@ -184,6 +184,7 @@ class Repro:
         for t, c in enumerate(base):
             c = dict(c)
             c["prior"] = False
+            c["special"] = None         # (non-finite objective values upset pymoo's default termination: not pymoode's business)
             c["user_ops"] = [None, None, "mutation", "repair", "repair-object"][rng.randint(5)] if not c["algo"] in ("ga", "ea-dex") else None
             v = VARIANTS[t % len(VARIANTS)]
             c["variant"] = v
@@ -321,6 +322,7 @@ class Resume:
         for t, c in enumerate(base):
             c = dict(c)
             c["prior"] = False
+            c["special"] = None
             c["user_ops"] = [None, "mutation", "repair", "crowding", "repair-object"][rng.randint(5)] if c["algo"] not in ("ga", "ea-dex") else None
             c["method"] = Resume.METHODS[t % 3]
             c["history"] = bool(rng.randint(3) == 0)
